@@ -782,7 +782,7 @@ func (a *Analysis) solveSummaries() {
 			a.summary(fn, nil)
 		}
 	}
-	for iter := 0; iter < 40; iter++ {
+	for iter := 0; iter < 60; iter++ {
 		a.sumDirty = false
 		var keys []string
 		for k := range a.sums {
@@ -793,19 +793,23 @@ func (a *Analysis) solveSummaries() {
 		for _, k := range keys {
 			ns := a.computeSummary(a.sumFn[k], a.sumCtx[k])
 			if ns.key() != a.sums[k].key() {
-				// kills are merged monotonically to guarantee termination
-				a.sums[k] = mergeMono(a.sums[k], ns)
-				changed = true
+				// kills are merged monotonically (growing); after the call depth has had time to propagate, MUST-events
+				// and post-facts only shrink, so the iteration terminates
+				merged := mergeMono(a.sums[k], ns, iter >= 10)
+				if merged.key() != a.sums[k].key() {
+					changed = true
+				}
+				a.sums[k] = merged
 			}
 		}
 		if !changed && !a.sumDirty {
 			return
 		}
 	}
-	a.Undec = append(a.Undec, Undecided{Where: "summaries", Msg: "fixpoint not reached in 40 iterations"})
+	a.Undec = append(a.Undec, Undecided{Where: "summaries", Msg: "fixpoint not reached in 60 iterations"})
 }
 
-func mergeMono(old, nu *Summary) *Summary {
+func mergeMono(old, nu *Summary, shrink bool) *Summary {
 	om := map[string]*ExitClass{}
 	for _, c := range old.Classes {
 		om[c.Ret] = c
@@ -814,6 +818,36 @@ func mergeMono(old, nu *Summary) *Summary {
 		if o, ok := om[c.Ret]; ok {
 			for l, k := range o.Kills {
 				c.Kills[l] |= k
+			}
+			if shrink {
+				for ev := range c.Events {
+					if !o.Events[ev] {
+						delete(c.Events, ev)
+					}
+				}
+				keep := map[string]bool{}
+				for _, l := range o.Post {
+					keep[l.String()] = true
+				}
+				var np []Lit
+				for _, l := range c.Post {
+					if keep[l.String()] {
+						np = append(np, l)
+					}
+				}
+				c.Post = np
+			}
+		}
+	}
+	if shrink {
+		// classes never disappear once seen
+		seen := map[string]bool{}
+		for _, c := range nu.Classes {
+			seen[c.Ret] = true
+		}
+		for _, c := range old.Classes {
+			if !seen[c.Ret] {
+				nu.Classes = append(nu.Classes, c)
 			}
 		}
 	}
